@@ -115,6 +115,19 @@ fn m_bitvec(mode: &str, a: usize, b: usize) -> Meas {
             v.resize(b, true);
             v
         }
+        // growth through `Extend` / `FromIterator` from an iterator whose size hint is NOT exact
+        // (upper bound four times the real length), and from an exact one
+        "extend" => {
+            let mut v = BV::new(a);
+            v.extend((0..4 * b).filter(|i| i % 4 == 0).map(|i| i % 3 == 0));
+            v
+        }
+        "extendx" => {
+            let mut v = BV::new(a);
+            v.extend((0..b).map(|i| i % 3 == 0));
+            v
+        }
+        "collect" => (0..4 * (a + b)).filter(|i| i % 4 == 1).map(|i| i % 5 == 0).collect::<BV>(),
         _ => {
             let mut v = BV::with_capacity(a);
             for i in 0..b {
@@ -143,6 +156,12 @@ macro_rules! m_bfv_impl {
                 "resize" => {
                     let mut v = BitFieldVec::<$W>::new(w, a);
                     v.resize(b, 0);
+                    v
+                }
+                // `Extend` from an iterator whose size hint is not exact
+                "extend" => {
+                    let mut v = BitFieldVec::<$W>::new(w, a);
+                    v.extend((0..4 * b).filter(|i| i % 4 == 0).map(|_| 0 as $W));
                     v
                 }
                 _ => {
@@ -557,7 +576,7 @@ fn exec(ctx: &mut Ctx, st: &mut St, op: &str) {
                     let p = payload(ctx, st, "bitvec", m);
                     let len = match mode {
                         "new" => a,
-                        "push" => a + b,
+                        "push" | "extend" | "extendx" | "collect" => a + b,
                         "resize" => a.max(b),
                         _ => b,
                     };
@@ -575,7 +594,7 @@ fn exec(ctx: &mut Ctx, st: &mut St, op: &str) {
                     let p = payload(ctx, st, &format!("bfv{}", wb), m);
                     let len = match mode {
                         "new" | "unaligned" => a,
-                        "push" => a + b,
+                        "push" | "extend" => a + b,
                         "resize" => a.max(b),
                         _ => b,
                     };
@@ -829,6 +848,9 @@ fn directed(ctx: &mut Ctx, st: &mut St) {
     for &(a, b) in &[(0usize, 0usize), (0, 1), (0, 64), (0, 65), (1, 63), (1, 64), (63, 1), (63, 2), (64, 1), (100, 1000), (511, 2), (0, 4097)] {
         exec(ctx, st, &format!("bitvec push {} {}", a, b));
         exec(ctx, st, &format!("bitvec resize {} {}", a, a + b));
+        exec(ctx, st, &format!("bitvec extend {} {}", a, b));
+        exec(ctx, st, &format!("bitvec extendx {} {}", a, b));
+        exec(ctx, st, &format!("bitvec collect {} {}", a, b));
         exec(ctx, st, &format!("bitvec cap {} {}", a, b));
         exec(ctx, st, &format!("bitvec cap {} {}", a + b, b));
     }
@@ -1032,7 +1054,7 @@ fn random(ctx: &mut Ctx, st: &mut St) {
         match ctx.rng.below(10) {
             0 => {
                 let b = ctx.rng.below(300) as usize;
-                let mode = *ctx.rng.pick(&["new", "push", "resize", "cap"]);
+                let mode = *ctx.rng.pick(&["new", "push", "resize", "cap", "extend", "extendx", "collect"]);
                 let a = if mode == "new" { len } else { len % 5000 };
                 let b2 = if mode == "resize" { a + b } else { b };
                 exec(ctx, st, &format!("bitvec {} {} {}", mode, a, if mode == "new" { 0 } else { b2 }));
@@ -1044,7 +1066,7 @@ fn random(ctx: &mut Ctx, st: &mut St) {
                     1 => wb,
                     _ => ctx.rng.below(wb as u64 + 1) as usize,
                 };
-                let mode = *ctx.rng.pick(&["new", "unaligned", "push", "resize", "cap"]);
+                let mode = *ctx.rng.pick(&["new", "unaligned", "push", "resize", "cap", "extend"]);
                 let a = if mode == "new" || mode == "unaligned" { len % 200_000 } else { len % 3000 };
                 let b = ctx.rng.below(500) as usize;
                 let b2 = match mode {
